@@ -105,6 +105,7 @@ deriving DecidableEq, Repr, Inhabited
 structure WSpec where
   mode    : WMode
   swallow : Bool        -- worker catches CancelledError and returns normally
+  resume  : Bool := false   -- worker catches its *first* CancelledError and goes on awaiting (it obeys the next one)
 deriving DecidableEq, Repr, Inhabited
 
 /-- a synchronous pool call made from inside user code the pool runs (worker start, callback, iterator pull) -/
